@@ -390,7 +390,7 @@ class Validator:
 GEN_OPTS = {"avoid": ("countLeadingZeros", "countTrailingZeros", "abs:u32"), "vec_select_cond": False,
             "safe_int_div": True, "ordered_int_clamp": True}
 
-GEN_QUICK, GEN_THOROUGH = 400, 3000
+GEN_QUICK, GEN_THOROUGH = 400, 1500
 
 
 def avoid_recorded_findings(prog):
@@ -795,9 +795,9 @@ def run(ctx):
     vc.validate(corp, [OPTION_SETS[0], OPTION_SETS[1]] if not ctx.thorough else OPTION_SETS[:4], ctx.scale(1, 3), own=False)
     lap("validate_corpus")
     # generated programs (shared typed generator): quick = each under one base profile (desktop / ES alternating);
-    # thorough = both base profiles and one of the richer option sets
+    # thorough = one base profile and one of the richer option sets (binding map, writer flags, ...)
     if ctx.thorough:
-        gstats, gdistinct = generated_leg(ctx, tools, irx, glx, en, GEN_THOROUGH, 3, lambda k: (0, 1, 2 + k % (len(OPTION_SETS) - 2)))
+        gstats, gdistinct = generated_leg(ctx, tools, irx, glx, en, GEN_THOROUGH, 2, lambda k: (k % 2, 2 + (k // 2) % (len(OPTION_SETS) - 2)))
     else:
         gstats, gdistinct = generated_leg(ctx, tools, irx, glx, en, GEN_QUICK, 1, lambda k: (k % 2,))
     lap("validate_generated")
